@@ -41,5 +41,6 @@ pub struct StreamErrorIncoming { pub opaque: u64 }   // h3::quic::StreamErrorInc
 //@extract h3/src/frame.rs :: - :: enum FrameProtocolError
 //@end
 //@extract h3/src/frame.rs :: - :: struct FrameDecoder
+//@derive-default r.expected is None
 //@end
 
